@@ -69,6 +69,11 @@ def tables(tier):
         for cells in itertools.product((0.5, 1.5, None), repeat=r * c):
             if None in cells:
                 yield 'sparse-float', [list(cells[i * c:(i + 1) * c]) for i in range(r)]
+    # float tables with missing pairs and negative weights (the reported weight must be the table entry, bit for bit)
+    for r, c in ((2, 2), (2, 3)):
+        for cells in itertools.product((0.1, -0.3, 0.7, None) if not q else (0.1, -0.3, None), repeat=r * c):
+            if None in cells:
+                yield 'sparse-float-signed', [list(cells[i * c:(i + 1) * c]) for i in range(r)]
     # bool tables with missing pairs (the placeholder for a missing pair is an int in a bool matrix)
     for r, c in ((1, 2), (2, 1), (2, 2), (2, 3), (3, 2)):
         for cells in itertools.product((False, True, None), repeat=r * c):
